@@ -8,7 +8,11 @@
    with an empty tilt list Field.shift returns (0, 0).  np.fix and the sub-pixel split are modelled
    on the rationals.  The square root of the unitary factor is the parameter [sq] of Model/Dft.v.
    Definitions only, no proofs. *)
-From LV Require Export Model.Field Model.Dft Model.PType.
+From LV Require Export Model.Field Model.Dft.
+
+(* the plane type of a Wavefront: lentil.none, lentil.pupil or lentil.image (the Wavefront.ptype
+   setter accepts nothing else) *)
+Inductive wf_ptype := PtNone | PtPupil | PtImage.
 
 (* np.fix: rounding toward zero *)
 Definition qfix (q : Qc) : Z := Z.quot (Qnum (this q)) (Zpos (Qden (this q))).
@@ -53,8 +57,8 @@ Definition mask_bbox (mask : option bmask) (Ro Co : Z) : result extent :=
   match mask with None => Ok (0, Ro - 1, 0, Co - 1) | Some m => mask_boundary m end.
 
 (* _propagate_ptype(ptype, 'fraunhofer') *)
-Definition propagate_ptype (t : wtype) : result wtype :=
-  match t with WNone => Err TypeError | WPupil => Ok WImage | WImage => Ok WPupil end.
+Definition propagate_ptype (t : wf_ptype) : result wf_ptype :=
+  match t with PtNone => Err TypeError | PtPupil => Ok PtImage | PtImage => Ok PtPupil end.
 
 (* _dft_alpha: one axis.  focal length None = np.inf (a finite number divided by inf is 0.0) *)
 Definition dft_alpha1 (dx du wavelength : Qc) (z : option Qc) (os : Z) : Qc :=
@@ -72,7 +76,7 @@ Record wavefront := mkWf {
   wps : option (Qc * Qc);         (* pixelscale (row, col); None if never set *)
   wfocal : option Qc;             (* focal length; None = np.inf *)
   wshape : Z * Z;                 (* shape of the plane the fields live in *)
-  wptype : wtype;
+  wptype : wf_ptype;
   wdata : list (field S)
 }.
 
